@@ -17,13 +17,40 @@ class Stub:
     def __init__(self, **kw):
         self.__dict__.update(kw)
 
+    @classmethod
+    def of(cls, real_class, **kw):
+        """stand-in for `self` of real_class: the given instance attributes, plus every method, property and class
+        constant of the real class (so private helpers that a refactoring extracts resolve as on a real instance)"""
+        obj = cls(**kw)
+        obj.__dict__["_vf_real_class"] = real_class
+        return obj
+
     def __getattr__(self, name):
         if name.startswith("__"):
             raise AttributeError(name)
+        real = self.__dict__.get("_vf_real_class")
+        if real is not None:
+            import inspect
+            import types
+            try:
+                raw = inspect.getattr_static(real, name)
+            except AttributeError:
+                raw = None
+            else:
+                if isinstance(raw, staticmethod):
+                    return raw.__func__
+                if isinstance(raw, classmethod):
+                    return types.MethodType(raw.__func__, real)
+                if isinstance(raw, property):
+                    return raw.fget(self)
+                if inspect.isfunction(raw):
+                    return types.MethodType(raw, self)
+                if not hasattr(raw, "__get__") or isinstance(raw, (int, float, str, bytes, tuple, frozenset, dict, list, set)):
+                    return raw
         raise Unsupported("stand-in %r has no attribute %r" % (type(self).__name__, name))
 
     def __repr__(self):
-        return "Stub(%s)" % ", ".join("%s=%r" % kv for kv in self.__dict__.items())
+        return "Stub(%s)" % ", ".join("%s=%r" % kv for kv in self.__dict__.items() if kv[0] != "_vf_real_class")
 
     def __eq__(self, other):
         return isinstance(other, Stub) and self.__dict__ == other.__dict__
